@@ -160,7 +160,7 @@ def leaves(t, out=None, seen=None):
     elif k in ('const', 'id', 'unk'):
         pass
     elif k == 'call':
-        if t[3] is not None:
+        if t[3] is not None and t[3][0] not in ('unk', 'const'):
             leaves(t[3], out, seen)
         else:
             for a in t[2]:
@@ -259,9 +259,11 @@ def _shape(t, depth=0):
 
 
 class Write:
-    __slots__ = ('table', 'column', 'disc', 'value', 'loc', 'func', 'kind', 'where')
+    __slots__ = ('table', 'column', 'disc', 'value', 'loc', 'func', 'kind', 'where', 'seq', 'conds')
 
-    def __init__(self, table, column, disc, value, loc, func, kind, where=None):
+    def __init__(self, table, column, disc, value, loc, func, kind, where=None, seq=0):
+        self.seq = seq
+        self.conds = ()
         self.table = table
         self.column = column
         self.disc = disc
@@ -277,6 +279,21 @@ class Write:
 
     def __repr__(self):
         return '<Write %s.%s%s <- %s>' % (self.table, self.column, list(self.disc) or '', shape(self.value)[:60])
+
+
+class Read:
+    __slots__ = ('table', 'outs', 'loc', 'where', 'func', 'seq', 'stmt')
+
+    def __init__(self, table, outs, loc, where, func, seq, stmt):
+        self.table, self.outs, self.loc, self.where = table, outs, loc, where
+        self.func, self.seq, self.stmt = func, seq, stmt
+
+    @property
+    def columns(self):
+        return [o[2] for o in self.outs if o and o[0] == 'loc']
+
+    def __repr__(self):
+        return '<Read %s(%s) where %s>' % (self.table, ','.join(self.columns), sorted(self.where))
 
 
 class Env:
@@ -308,6 +325,10 @@ class Interp:
         self.reads = []
         self.unknown = []
         self.stack = []
+        self.seq = 0
+        self.cond_path = []      # conditions (terms) of all enclosing ifs / loops, across frames
+        self.calls = []          # (seq, callee qualname, arg terms, call node, caller Function)
+        self.throws = []         # (seq, type, node, Function)
         self._sql_cache = {}
         self.stats = {'inlined': 0, 'sites': 0}
 
@@ -317,6 +338,10 @@ class Interp:
         -> return term."""
         self.writes = []
         self.reads = []
+        self.calls = []
+        self.throws = []
+        self.cond_path = []
+        self.seq = 0
         env = Env()
         for i, p in enumerate(func.params):
             env.vars[p['id']] = (args[i] if args and i < len(args) else ('in', p.get('name'), ''))
@@ -343,6 +368,7 @@ class Frame:
         self.sites = {id(s.node): s for s in sites_mod.find_sites(func)}
         self.edges = {id(e.node): e for e in ip.cg.edges(func)}
         self.guards = []      # stack of (cond term, labels)
+        self.cond_stack = []  # terms of the enclosing if / loop conditions
 
     def run(self):
         f = self.func
@@ -401,10 +427,15 @@ class Frame:
                     return self.stmt(body[1]) if has_else else True
             base = self.env
             self.env = base.copy()
+            self.cond_stack.append(cond)
+            self.ip.cond_path.append(cond)
             r1 = self.stmt(body[0])
             e1 = self.env
             self.env = base.copy()
+            self.ip.cond_path[-1] = ('op', '!', (cond,))
             r2 = self.stmt(body[1]) if has_else else True
+            self.cond_stack.pop()
+            self.ip.cond_path.pop()
             e2 = self.env
             self.env = self._merge(base, [(e1, r1), (e2, r2)], cond)
             return r1 or r2
@@ -439,12 +470,16 @@ class Frame:
             elem = self._elem(rng)
             base = self.env
             self.env = base.copy()
+            self.cond_stack.append(rng)
+            self.ip.cond_path.append(rng)
             if loopvar is not None:
                 self.env.vars[loopvar['id']] = elem
             self.stmt(c[-1])
             if loopvar is not None:
                 self.env.vars[loopvar['id']] = elem
             self.stmt(c[-1])
+            self.cond_stack.pop()
+            self.ip.cond_path.pop()
             self.env = self._merge(base, [(self.env, True), (base.copy(), True)], None)
             return True
         if k == 'ReturnStmt':
@@ -472,6 +507,11 @@ class Frame:
                 r = self.stmt(ch)
             return r
         if k == 'CXXThrowExpr' or strip(n).get('kind') == 'CXXThrowExpr':
+            th = n if k == 'CXXThrowExpr' else strip(n)
+            c = children(th)
+            self.ip.seq += 1
+            self.ip.throws.append((self.ip.seq, (strip(c[0]).get('type') if c else None), th, self.func,
+                                   list(self.ip.cond_path)))
             return False
         self.ev(n)
         return True
@@ -827,7 +867,10 @@ class Frame:
                     env.vars[p['id']] = self.ev(a)
                 fr = Frame(self.ip, f, env, self.depth + 1)
                 fr.run()
-                return ('agg', rec, tuple(sorted(fr.env.fields.items())))
+                flds = dict(fr.env.fields)
+                # keep the constructor arguments reachable (base-class initialisers are not fields)
+                flds['__ctor_args'] = ('op', 'args', tuple(env.vars.get(p['id'], UNK) for p in f.params))
+                return ('agg', rec, tuple(sorted(flds.items())))
         return ('op', 'ctor:' + rec.split('::')[-1], tuple(self.ev(a) for a in real))
 
     # ---- calls -----------------------------------------------------------------------
@@ -907,6 +950,8 @@ class Frame:
         argv = [self.ev(a) for a in args]
         if e.name and e.name.endswith('::id') and not argv:
             return ('id',)
+        self.ip.seq += 1
+        self.ip.calls.append((self.ip.seq, e.name or name, tuple(argv), n, self.func))
         if self.depth >= MAXDEPTH or any(t.key in self.ip.stack for t in targets):
             return ('call', e.name or name, tuple(argv), None)
         outs = []
@@ -971,6 +1016,16 @@ class Frame:
                             if _constval(v) is not None and c not in ID_COLUMNS))
         table = st.table
         loc = locstr(s.node)
+        self.ip.seq += 1
+        n0 = len(self.ip.writes)
+        try:
+            return self._site_effects(s, st, binds, where, disc, table, loc)
+        finally:
+            for w in self.ip.writes[n0:]:
+                w.seq = self.ip.seq
+                w.conds = tuple(self.ip.cond_path)
+
+    def _site_effects(self, s, st, binds, where, disc, table, loc):
         if st.kind == 'insert':
             rows = st.rows or []
             cols = [c.lower() for c in st.columns]
@@ -1024,7 +1079,7 @@ class Frame:
                 else:
                     cols = [cname for _, cname in e.columns_used()]
                     outs.append(('op', 'sql:' + e.text()[:30], tuple(('loc', table, cn.lower(), disc, '') for cn in cols)))
-            self.ip.reads.append((table, [o for o in outs], loc, dict(where), self.func))
+            self.ip.reads.append(Read(table, list(outs), loc, dict(where), self.func, self.ip.seq, st))
             if s.sink is not None:
                 self.sink(s.sink, outs)
             return UNK
